@@ -244,6 +244,8 @@ def run(tier):
     # a sleeping node with two withheld replies, released by the next wake-up (order of the burst)
     cases.append((("PA", "CA0", "SAe", "PSA", "RAT", "CFG", "TIMU", "PSA"), b"", "burst", False))
     cases.append((("PA", "CA0", "SAe", "PSA", "RAT", "CFG", "PSA", "CFG"), b"", tier, False))
+    # two wake-up announcements of the same node in one burst, with replies withheld before them
+    cases.append((("PA", "CA0", "SAe", "PSA", "RAT", "CFG", "PSA", "PSA", "CFG"), b"", "burst", False))
     cases.append((("NOISEPA", "LONGSK"), b"", tier, False))
     names = [n for n in names if n not in LONG]
     for a, b in itertools.product(names, repeat=2):
